@@ -1531,7 +1531,9 @@ impl<'p> Machine<'p> {
         if self.track_live.iter().flatten().any(|&b| b) || self.block_live.iter().flatten().any(|&b| b) {
             v.push("Allocation".to_string());
         }
-        if self.chan.iter().any(|st| !st.queue.is_empty() || st.dead_letters > 0) {
+        // (a message sent after the receiver was dropped is handed back to its sender: the
+        // channel does not hold it)
+        if self.chan.iter().any(|st| !st.queue.is_empty()) {
             v.push("Messages".to_string());
         }
         v
